@@ -106,13 +106,13 @@ CHECKS["C06"] = {
 CHECKS["C07"] = {
     "gen_ties": ["Builtins"],
     "level": "proof",
-    "lean_targets": ["Yae.Props.C07", "Yae.Props.C07b"],
+    "lean_targets": ["Yae.Props.C07", "Yae.Props.C07b", "Yae.Props.Api"],
     "streams": [
         {"name": "envcheck", "quick_n": 3000, "thorough_n": 40000,
          "oracles": ["envcheck-accepts-mismatch", "envcheck-rejects-equal", "envcheck-evaluated-on-reject", "envcheck-panic", "envcheck-wrong-result", "process-crash"]},
         {"name": "engine", "quick_n": 1500, "thorough_n": 20000, "model_is_oracle": True, "oracles": ["api-panic", "process-crash"]},
     ],
-    "explanation": "Decision logic of the facade's environment check over the model (Conv.envCheck), proved: accepted iff every compile-time name is bound at run time to a value of an equal type (C07.accept_iff, reject_iff, reject_missing, reject_mismatch, undefined_iff); extra names never matter (extra_names_ok); the verdict, error class included, is invariant under re-ordering of both environments (order_irrelevant); only the types of the bound values matter (only_types_matter); a value whose own object type is a field permutation of the declared type passes (field_order_ok); acceptance plus well-formed values gives the premise of C01/C02 (accepted_env_ok). Tie: envcheck stream through the public API (Compile, Callable) on pairs of struct / map / raw environments and their mutations, half of them after a warm-up call on the same Callable, with a tracing host function making 'evaluates nothing' observable. The stream also compiles other expressions on the same engine between a compilation and its invocation, builds compile-time types whose components are one shared node (a DAG), and realises ONE declaration as two Go types (other field order, numeric kinds, pointers): such bindings are equal by construction and must be accepted whatever the reflection layer makes of them. At the level of the engine object (Model/Engine.lean, tied by the engine stream): a rejected invocation returns the environment error with an EMPTY event log - no host call, no print line, no debug entry - for every engine, compiler, Callable and environment (C07.reject_evaluates_nothing, missing_or_mistyped_evaluates_nothing); an accepted one is exactly the compiled tree evaluated on the run-time bindings (accept_evaluates_normally, equal_types_evaluate_normally).",
+    "explanation": "Decision logic of the facade's environment check over the model (Conv.envCheck), proved: accepted iff every compile-time name is bound at run time to a value of an equal type (C07.accept_iff, reject_iff, reject_missing, reject_mismatch, undefined_iff); extra names never matter (extra_names_ok); the verdict, error class included, is invariant under re-ordering of both environments (order_irrelevant); only the types of the bound values matter (only_types_matter); a value whose own object type is a field permutation of the declared type passes (field_order_ok); acceptance plus well-formed values gives the premise of C01/C02 (accepted_env_ok). Tie: envcheck stream through the public API (Compile, Callable) on pairs of struct / map / raw environments and their mutations, half of them after a warm-up call on the same Callable, with a tracing host function making 'evaluates nothing' observable. The stream also compiles other expressions on the same engine between a compilation and its invocation, builds compile-time types whose components are one shared node (a DAG), and realises ONE declaration as two Go types (other field order, numeric kinds, pointers): such bindings are equal by construction and must be accepted whatever the reflection layer makes of them. At the level of the engine object (Model/Engine.lean, tied by the engine stream): a rejected invocation returns the environment error with an EMPTY event log - no host call, no print line, no debug entry - for every engine, compiler, Callable and environment (C07.reject_evaluates_nothing, missing_or_mistyped_evaluates_nothing); an accepted one is exactly the compiled tree evaluated on the run-time bindings (accept_evaluates_normally, equal_types_evaluate_normally). ApiProps.api_env_refusal_iff states the same over every history of API calls on a fresh engine: the refusal case occurs exactly when a compile-time name is missing or bound to a value of another type.",
     "assumptions": [],
 }
 
@@ -223,13 +223,13 @@ CHECKS["C15"] = {
 CHECKS["C16"] = {
     "gen_ties": ["Builtins", "Conv"],
     "level": "proof",
-    "lean_targets": ["Yae.Props.C16", "Yae.Props.C02"],
+    "lean_targets": ["Yae.Props.C16", "Yae.Props.C02", "Yae.Props.Api"],
     "streams": [
         EVAL(4000, 60000, kinds=["check", "run"], projections=["accept", "class"], model_is_oracle=["check", "run"], input_regex=r"\b(mb|ms|om|mb2|om2)\b|maybe|Nothing|Just"),
         {"name": "conv", "quick_n": 4000, "thorough_n": 50000, "oracles_only": True, "oracles": ["conv-wf", "conv-type-disagrees"]},
         {"name": "envcheck", "quick_n": 2000, "thorough_n": 30000, "oracles_only": True, "oracles": ["envcheck-accepts-mismatch", "envcheck-result-ill-formed"], "oracle_input_regex": r"maybe|nil"},
     ],
-    "explanation": "Proved: unification of a pattern with an optional type succeeds only for a variable, an optional pattern (or top, which no registered signature contains) (no_coercion, builtins_no_top); in every accepted call an optional argument meets a type-variable or optional parameter (accepted_call_no_coercion); by decide over the regenerated built-in table the only optional parameter is get's and the bare-variable positions are listed (sole_eliminator); member and subscript on an optional are rejected (member_rejected, subscript_rejected); get(optional, d) yields payload or default (get_maybe_spec); accepted programs over environments with absent values never fail because of them (C02.progress with WF admitting nothing). Tie: eval stream with optional-typed variables present/absent and nested, conv stream with nil pointers/slices/maps. The envcheck stream (oracles restricted to inputs with optionals or nil): a run-time environment that differs from the compile-time one in optionality is refused, so an accepted expression never meets an absent value where it was compiled for a present one.",
+    "explanation": "Proved: unification of a pattern with an optional type succeeds only for a variable, an optional pattern (or top, which no registered signature contains) (no_coercion, builtins_no_top); in every accepted call an optional argument meets a type-variable or optional parameter (accepted_call_no_coercion); by decide over the regenerated built-in table the only optional parameter is get's and the bare-variable positions are listed (sole_eliminator); member and subscript on an optional are rejected (member_rejected, subscript_rejected); get(optional, d) yields payload or default (get_maybe_spec); accepted programs over environments with absent values never fail because of them (C02.progress with WF admitting nothing). Tie: eval stream with optional-typed variables present/absent and nested, conv stream with nil pointers/slices/maps. The envcheck stream (oracles restricted to inputs with optionals or nil): a run-time environment that differs from the compile-time one in optionality is refused, so an accepted expression never meets an absent value where it was compiled for a present one. Through the public API (ApiProps.api_sound over every history of calls on the engine object): an accepted expression invoked on an accepted environment ends in a value of its compile-time type or in one of the documented failures - index, key, modulus, regular expression, a failing host function - none of which is about absence; an environment that differs in optionality from the compile-time one is refused with an empty event log (api_env_refusal_iff).",
     "assumptions": [],
 }
 
